@@ -394,3 +394,74 @@ def lut_legal(ctx, L, rule="R-PAD"):
         ctx.violated(rule, init, inst, "; ".join(bad[:4]), init.node)
     else:
         ctx.holds(rule, inst + ": LUT[L] = smallest legal CAN-FD length >= L for L = 0..64")
+
+
+def single_frame(ctx, L, rule="R-SINGLE-FRAME"):
+    """J1939-21 single frame: identifier = priority | DP | PF | PS | SA of the arguments, payload passed through"""
+    f = L.send_pgn
+    n = 0
+    for r in runs(ctx, f):
+        for i, e in r.effects():
+            if e.kind == "call" and is_self_call(e.value, "__send_message") and L.sinks.direct(f, e.value, L.sinks.send_q):
+                n += 1
+                a = e.value[2]
+                inst = "%s single frame" % L.tag
+                try:
+                    bv = BitEval(param_leaf()).ev(resolve_objects(ctx.prog, a[0]))
+                except AnalysisError as ex:
+                    ctx.unknown(rule, "%s identifier: %s" % (inst, ex))
+                    continue
+                want = {}
+                for lo, nb, src in ((26, 3, "priority"), (16, 8, "pdu_format"), (8, 8, "pdu_specific"), (0, 8, "src_address")):
+                    for k in range(nb):
+                        want[lo + k] = ("b", src, k)
+                want[24] = ("b", "data_page", 0)
+                want[25] = 0
+                bad = [k for k in range(29) if bv.bit(k) != want[k]]
+                if bad or bv.width() is None or bv.width() > 29:
+                    ctx.violated(rule, f, inst + " identifier", "identifier is %s (bit %s differs from priority|DP|PF|PS|SA)" % (bv.describe(), bad[:3]), e.node)
+                elif a[1] != ("c", True) or a[2] != ("p", "data"):
+                    ctx.violated(rule, f, inst + " payload", "frame sent as extended=%s with payload %s" % (pretty(a[1]), pretty(a[2])[:40]), e.node)
+                else:
+                    ctx.holds(rule, inst + ": identifier composed of the arguments, payload passed through")
+    if n == 0 and not L.fd:
+        ctx.unknown(rule, "single-frame send not found in %s" % f.qual)
+
+
+def deliver_args(ctx, L, rule="R-DELIVER-ARGS"):
+    """single-frame delivery in notify: (priority, pgn, sa, dest, timestamp, data) come from the frame"""
+    P = ctx.prog
+    f = L.notify
+    MID = ("call", ("clsref", "MessageId"), (), (("can_id", ("p", "can_id")),))
+    PG = ("call", ("clsref", "ParameterGroupNumber"), (), ())
+    n = 0
+    for r in runs(ctx, f):
+        filled = any(e.kind == "call" and e.value[1] == ("attr", PG, "from_message_id") and e.value[2] == (MID,) for _, e in r.effects())
+        for i, e in r.effects():
+            if e.kind == "call" and is_self_call(e.value, "__notify_subscribers"):
+                n += 1
+                a = bind_args(e.value, P.func("ElectronicControlUnit", "_notify_subscribers"))
+                F = G.conj([(g, p) for g, p in r.guards(i)])
+                pdu2 = G.implies(F, ("attr", PG, "is_pdu2_format"))[0] or G.implies(F, mk_not(("attr", PG, "is_pdu1_format")))[0]
+                inst = "%s notify delivers a %s single frame with the frame's own fields" % (L.tag, "PDU2" if pdu2 else "PDU1")
+                want_pgn = ("attr", PG, "value") if pdu2 else mk_bin("&", ("attr", PG, "value"), ("c", 0x1FF00))
+                want_dest = ("c", 255) if pdu2 else ("attr", PG, "pdu_specific")
+                probs = []
+                if not filled:
+                    probs.append("the PGN object is not filled from the received identifier")
+                if a.get("priority") != ("attr", MID, "priority"):
+                    probs.append("priority %s" % pretty(a.get("priority")))
+                if a.get("pgn") != want_pgn:
+                    probs.append("pgn %s" % pretty(a.get("pgn")))
+                if a.get("sa") != ("attr", MID, "source_address"):
+                    probs.append("source %s" % pretty(a.get("sa")))
+                if a.get("dest") != want_dest:
+                    probs.append("destination %s" % pretty(a.get("dest")))
+                if a.get("timestamp") != ("p", "timestamp") or a.get("data") != ("p", "data"):
+                    probs.append("timestamp/data %s / %s" % (pretty(a.get("timestamp")), pretty(a.get("data"))))
+                if probs:
+                    ctx.violated(rule, f, inst, "; ".join(probs), e.node)
+                else:
+                    ctx.holds(rule, inst)
+    if n < 2:
+        ctx.unknown(rule, "single-frame deliveries not found in %s (%d)" % (f.qual, n))
